@@ -157,3 +157,38 @@ Definition check_schema (fa fb : bool) (c : scase) : verdict :=
 Definition sc k t cf o mi c s l :=
   {| s_probe := {| p_kind := k; p_type := t; p_config := cf; p_opts := o; p_missing := mi |};
      s_controlled := c; s_schema := s; s_loader := l |}.
+
+(* ------------------------------------------------------------------ stream "meta" *)
+
+(** model-free: three related loads of one configuration through the real
+    config.NewConfiguration (A: all in the file, S: the selected leaves in the
+    environment, E: every nameable leaf in the environment), compared at the
+    decoded Configuration.  There is no model output to compare with, so
+    v_corr = true; v_prop is the property itself on the observation.
+    guards : 4 = a variable continues with two or more name segments below a list
+                 index and the file holds no map at that element (C20-F4)
+             5 = the file of a split is not valid for the schema on its own
+                 although the whole configuration is (C20-F5)
+             6 = the schema rejects the all-file configuration, the loader
+                 without the validator accepts it (C20-F6) *)
+Record mcase := {
+  mc_pfx : string;
+  mc_vars : list (string * bool);       (* variable name, file holds a map at the list element(s) it addresses *)
+  mc_all : list (string * bool);        (* the same for the all-environment load *)
+  mc_okA : bool; mc_okS : bool; mc_okE : bool; mc_eqAS : bool; mc_eqAE : bool;
+  mc_split_valid : bool; mc_rest_valid : bool; mc_schema_all : bool; mc_loader_all : bool }.
+
+Definition f4_var (pfx : string) (v : string * bool) : bool :=
+  flat_after_index (split_dot (normalise_key pfx (fst v))) && negb (snd v).
+
+Definition check_meta (c : mcase) : verdict :=
+  {| v_corr := true;
+     v_prop := if mc_okA c then mc_okS c && mc_eqAS c && mc_okE c && mc_eqAE c
+               else negb (mc_okS c || mc_okE c);
+     v_guards := guards [(4%Z, existsb (f4_var (mc_pfx c)) (mc_vars c) || existsb (f4_var (mc_pfx c)) (mc_all c));
+                         (5%Z, mc_schema_all c && (negb (mc_split_valid c) || negb (mc_rest_valid c)));
+                         (6%Z, negb (mc_schema_all c) && mc_loader_all c)] |}.
+
+Definition mc p v a oa os oe es ee sv rv sa la :=
+  {| mc_pfx := p; mc_vars := v; mc_all := a; mc_okA := oa; mc_okS := os; mc_okE := oe; mc_eqAS := es; mc_eqAE := ee;
+     mc_split_valid := sv; mc_rest_valid := rv; mc_schema_all := sa; mc_loader_all := la |}.
